@@ -177,4 +177,60 @@ ne.raw = 'return celma::common::cv_op_ne< {L}>( *static_cast<const FS*>(self), o
 OBS += [eq, ne]
 # constructors FixedString(const char*) / (const std::string&): the front end aborts on their out-of-class
 # definition with mem-initialisers + default member initialisers (cpp_typecheck_function invariant) -> not under contract
+# ---- iterators (textually instantiated classes): an iterator over this string is (object, index) with index == EndValue
+# (= npos) for end()/rend(); the invariant "index is End or a valid position" is preserved by every step (C10), the steps
+# follow std::string's iterators inside their domain and the traversals visit the content in order (C11)
+IT = 'celma::common::detail::FixedStringIterator'
+RIT = 'celma::common::detail::FixedStringReverseIterator'
+INV_IT = '(idx == %s || idx < g_len)' % NPOS
+STEP = ('FS* o = static_cast<FS*>(self); %s it( true, o); it.mIndex = idx; '
+        'switch (op) { case 0: ++it; break; case 1: it++; break; case 2: --it; break; case 3: it--; break; case 4: it += val; break; default: it -= val; } return it.mIndex;')
+
+
+def sp_step(rev):
+    def f(L, K):
+        E = NPOS
+        fwd = '(idx + 1 < g_len ? idx + 1 : %s)' % E                  # towards higher indices, End after the last
+        bwd = '(idx == %s ? g_len - 1 : idx - 1)' % E                  # towards lower indices; from End to the last character
+        adv = '(idx + val < g_len ? idx + val : %s)' % E
+        back = '(idx == %s ? g_len - val : idx - val)' % E
+        if not rev:
+            inc, dec, plus, minus = fwd, bwd, adv, back
+            dom_inc, dom_dec = 'idx != %s' % E, '(idx == %s ? g_len > 0 : idx > 0)' % E
+            dom_plus = 'idx != %s && val <= g_len - idx' % E
+            dom_minus = '(idx == %s ? (val >= 1 && val <= g_len) : val <= idx)' % E
+        else:
+            # reverse iterator: ++ moves to lower indices and reaches End (rend) after index 0; -- moves up, from rend to index 0
+            inc = '(idx > 0 ? idx - 1 : %s)' % E
+            dec = '(idx == %s ? 0 : idx + 1)' % E
+            plus = '(val <= idx ? idx - val : %s)' % E
+            minus = '(idx == %s ? val - 1 : idx + val)' % E
+            dom_inc, dom_dec = 'idx != %s' % E, '(idx == %s ? g_len > 0 : idx + 1 < g_len)' % E
+            dom_plus = 'idx != %s && val <= idx + 1' % E
+            dom_minus = '(idx == %s ? (val >= 1 && val <= g_len) : val < g_len - idx)' % E
+        dom = '(op <= 1 ? (%s) : op <= 3 ? (%s) : op == 4 ? (%s) : (%s))' % (dom_inc, dom_dec, dom_plus, dom_minus)
+        res = '(op <= 1 ? %s : op <= 3 ? %s : op == 4 ? %s : %s)' % (inc, dec, plus, minus)
+        return dict(dom=INV_IT + ' && op <= 5 && ' + dom, result=['R == ' + res])
+    return f
+
+
+for ident, cls, rev in (('it_step', IT, False), ('rit_step', RIT, True)):
+    m = M(ident, '', 'z', [(Z, 'idx'), (Z, 'op'), (Z, 'val')], False, dom10=INV_IT + ' && op <= 5', spec=sp_step(rev))
+    m.raw = STEP % cls
+    m.ens10 = ['R == %s || R < g_len  /* iterator invariant: End or a valid position */' % NPOS]
+    m.call = ('reverse_' if rev else '') + 'iterator: ++ / ++(int) / -- / --(int) / += / -='
+    OBS.append(m)
+for ident, cls in (('it_deref', IT), ('rit_deref', RIT)):
+    m = M(ident, '', 'c', [(Z, 'idx')], False, dom10=INV_IT, spec=lambda L, K: dict(dom='idx < g_len', result=['R == OLD(idx)']))
+    m.raw = 'FS* o = static_cast<FS*>(self); %s it( true, o); it.mIndex = idx; return *it;' % cls
+    m.call = ('reverse_' if 'Reverse' in cls else '') + 'iterator::operator*'
+    OBS.append(m)
+TRAV = ('FS* o = static_cast<FS*>(self); size_t n = 0; for (%(cls)s it = %(obj)s%(b)s(); it != %(obj)s%(e)s(); ++it) { if (n >= out_cap) break; out[n++] = *it; } return n;')
+for ident, cls, b, e, const, rev in (('iter_fwd', IT, 'begin', 'end', False, False), ('iter_cfwd', IT, 'cbegin', 'cend', True, False), ('iter_constfwd', IT, 'begin', 'end', True, False),
+                                      ('iter_rev', RIT, 'rbegin', 'rend', False, True), ('iter_crev', RIT, 'crbegin', 'crend', True, True), ('iter_constrev', RIT, 'rbegin', 'rend', True, True)):
+    m = M(ident, '', 'str', [], False,
+          spec=(lambda rev: (lambda L, K: dict(dom='1', result=['R == g_len'] + ['(%d >= R || out[%d] == %s)' % (j, j, ('OLD(g_len - 1 - %d)' % j) if rev else ('g%d' % j)) for j in range(L)])))(rev))
+    m.raw = TRAV % dict(cls=cls, obj='static_cast<const FS*>(o)->' if const else 'o->', b=b, e=e)
+    m.call = '%s() .. %s()%s traversal' % (b, e, ' const' if const and not b.startswith('c') else '')
+    OBS.append(m)
 OBSERVERS[:] = OBS
